@@ -258,13 +258,14 @@ def checkCalleeP (t : Toggles) (p : Program) : Nat → Key → Kind → Key → 
 def repairQueryP (t : Toggles) (p : Program) : Nat → Key → Caller → MP Unit
   | 0, _, _ => throwP .outOfFuel
   | fuel + 1, k, caller => do
-    if caller == .bpp then
+    if caller == .bpp && !t.f13 then
       modifyComp k fun c => { c with callees := [], order := [], unorderedMode := false }
       executeQueryP t p fuel k true caller
     else
       let n ← nodeInfoUnchecked k
       let pedantic := match caller with
         | .query _ _ ped => ped
+        | .bpp => true
         | _ => false
       let mut recompute := t.f32 && n.sccRun
       let mut needTfc := false
